@@ -106,4 +106,9 @@ def Packed.dispatch (p : Packed) : PackedOp → PackedResult
   | .toCopy false => .valueError
   | .other f => .plain (f p.unpack)
 
+/-- an aten op with several `PackedTensor` operands: `tree_map_only(PackedTensor, unpack, (args, kwargs))`
+replaces every one of them by its unpacked values before the op runs -/
+def Packed.dispatchN (ps : List Packed) (f : List (T Nat) → T Nat) : PackedResult :=
+  .plain (f (ps.map fun p => p.unpack))
+
 end Quanto
